@@ -13,7 +13,8 @@ ID = 'C05'
 TECHNIQUE = ('Tempita read sets vs context dictionaries at the four instantiation sites, name agreement between the attribute the call '
              'sites use and the key the template defines, constant propagation of class attributes through error_condition (partial '
              'evaluation over the finite class family), sentinel extraction from the C template, loop-variable agreement inside the '
-             '{{for _size}} blocks, reference comparison of C-API argument/return types with the installed CPython headers')
+             '{{for _size}} blocks, reference comparison of C-API argument/return types with the installed CPython headers; '
+             'per preprocessor/Tempita variant: guard / dominator extraction (cguard) and an interprocedural "sign-checked" typestate over the CIntFromPy functions')
 DECIDES = ('(CTX) every load of CIntToPy / CIntFromPy binds all variables the template reads; the key used as the defined function name is bound to the '
            'very attribute (to_py_function / from_py_function) the call sites emit, that attribute was assigned a per-type name '
            '(contains specialization_name()) before, and TYPE is the type\'s own C declaration; '
@@ -24,8 +25,10 @@ DECIDES = ('(CTX) every load of CIntToPy / CIntFromPy binds all variables the te
            'named is the one declared, and a join without explicit type is verified against pylong_join\'s default join type; '
            '(API) in __PYX_VERIFY_RETURN_INT_EXC(T, F, Api(x)) F is the return type of Api in the CPython headers and the size guard compares with sizeof(F); '
            'in CIntToPy each `sizeof(T) <op> sizeof(G)) return Api((C) value)` has C == G == parameter type of Api, signed G in the unsigned branch only under `<`; '
+           '(NEG) in every preprocessor variant each value CIntFromPy delivers for an unsigned TYPE (__PYX_VERIFY_RETURN_INT[_EXC] sites, `return (TYPE) <digits>`) lies in the else-arm of / behind a '
+           'rejecting negativity test of x, in the function or at all its unsigned-capable call sites, unless the value comes from a C-API converter that rejects negatives itself (rules/sC05.py); '
            '(FIXED) the hand-named to_py/from_py functions of the fixed integer types (size_t, Py_ssize_t, Py_hash_t, Py_UCS4, Py_UNICODE) take/return a C type of the same signedness class and at least the width.')
-NOT_DECIDED = ('range conditions per digit count (8 * sizeof(T) > n * PyLong_SHIFT ...), the text pylong_join generates, the fallback bit-chunk loop, '
+NOT_DECIDED = ('that a negativity test recognised by NEG (IsNeg(x), Py_SIZE(x) < 0, RichCompareBool(x, Py_False, Py_LT) == 1) is itself correct; range conditions per digit count (8 * sizeof(T) > n * PyLong_SHIFT ...), the text pylong_join generates, the fallback bit-chunk loop, '
                'TypeError for non-integers (delegated to __Pyx_PyNumber_Long), error_condition of external typedefs (instance attributes); '
                'DESIGN\'s "sibling agreement of the {{for _size in (2,3,4)}} sets" is deliberately NOT implemented: a branch that handles fewer digit counts '
                'falls through to the generic path and is still correct, so set equality is not a necessary condition.')
@@ -564,8 +567,8 @@ def rule_api(ctx):
 
 
 def run(ctx):
-    from ..rules import fixedconv
-    return [rule_ctx(ctx), rule_sent(ctx), rule_digits(ctx), rule_api(ctx), fixedconv.rule_fixed(ctx)]
+    from ..rules import fixedconv, sC05
+    return [rule_ctx(ctx), rule_sent(ctx), rule_digits(ctx), rule_api(ctx), fixedconv.rule_fixed(ctx), sC05.rule_neg(ctx)]
 
 
 MUTATIONS = [
@@ -586,7 +589,15 @@ MUTATIONS = [
     ('Cython/Utility/TypeConversion.c', 'PyLong_AsLong path guarded by sizeof({{TYPE}}) <= sizeof(PY_LONG_LONG)', 'C05-API'),
     ('Cython/Utility/TypeConversion.c', 'CIntToPy unsigned branch: sizeof({{TYPE}}) <= sizeof(long) -> PyLong_FromLong', 'C05-API'),
     ('Cython/Utility/TypeConversion.c', 'CIntToPy: PyLong_FromLongLong((long) value)', 'C05-API'),
+    ('Cython/Utility/TypeConversion.c', 'seed C05a: unsigned dispatcher takes the compact fast path (signed compact value through __PYX_VERIFY_RETURN_INT) before the IsNeg rejection', 'C05-NEG'),
+    ('Cython/Utility/TypeConversion.c', 'unsigned dispatcher: IsNeg rejection dropped (`if (IsCompact(x)) ... else`)', 'C05-NEG (compact site and the three PyULong sites)'),
+    ('Cython/Utility/TypeConversion.c', 'unsigned dispatcher: rejection narrowed to `IsNeg(x) && !IsCompact(x)`', 'C05-NEG'),
+    ('Cython/Utility/TypeConversion.c', 'unsigned dispatcher: `if (!IsCompact(x)) return __Pyx_PyULong_...(x);` placed before the IsNeg test', 'C05-NEG (digit sites of PyULong)'),
+    ('Cython/Utility/TypeConversion.c', '__Pyx_PyULong: #elif arm loses its Py_SIZE(x) < 0 test and converts through PyLong_AsLong', 'C05-NEG'),
     # behaviour-preserving edits, all silent
+    ('Cython/Utility/TypeConversion.c', '__Pyx_PyULong: #elif arm loses its Py_SIZE(x) < 0 test, or the PyPy arm its `result == 1` jump (PyLong_AsUnsignedLong[Long] reject negatives themselves)', 'silent'),
+    ('Cython/Utility/TypeConversion.c', 'dispatcher: `if (likely(IsCompact(x) && !IsNeg(x))) VERIFY else if (IsNeg(x)) goto raise_neg_overflow; else ...`; early-exit form '
+                                        '`if (IsNeg(x)) goto ...; if (IsCompact(x)) {...}` + plain return; PyPy arm as `int is_less = ...; if (is_less < 0) return -1; else if (is_less > 0) goto ...`', 'silent'),
     ('Cython/Utility/TypeConversion.c', 'negative branch loop over (2, 3) instead of (2, 3, 4) (falls through to the generic path)', 'silent'),
     ('Cython/Utility/TypeConversion.c', 'unsigned branch: loop variable _size renamed to n', 'silent'),
     ('Cython/Compiler/PyrexTypes.py', 'create_to_py_utility_code: context keys reordered, TYPE through a local variable', 'silent'),
